@@ -1,8 +1,11 @@
 #!/bin/sh
-# usage: lib/trymut.sh <patch.diff> <ID> [tier]   — apply a seeded change to /repo, run the check, undo.
+# usage: lib/trymut.sh <patch.diff> <ID> [tier] — run a check against a scratch worktree of /repo HEAD
+# with the seeded change applied (VERIF_REPO); /repo itself is not touched.
 P="$(realpath "$1")"; ID="$2"; TIER="${3:-quick}"
-if ! git -C /repo apply --check "$P" 2>/dev/null; then echo "PATCH DOES NOT APPLY: $P"; exit 3; fi
-git -C /repo apply "$P"
-./check "$ID" "$TIER"; rc=$?
-git -C /repo apply -R "$P" || echo "WARNING: could not revert $P"
+WT="/tmp/trymut-$$"
+git -C /repo worktree add -q --detach "$WT" HEAD || exit 3
+for f in $(git -C /repo status --short | awk '$1=="??"{print $2}' | grep verif_export); do cp "/repo/$f" "$WT/$f"; done
+if ! git -C "$WT" apply "$P" 2>/dev/null; then echo "PATCH DOES NOT APPLY: $P"; git -C /repo worktree remove --force "$WT"; exit 3; fi
+VERIF_REPO="$WT" ./check "$ID" "$TIER"; rc=$?
+git -C /repo worktree remove --force "$WT"
 echo "exit=$rc"
